@@ -228,11 +228,11 @@ CHECKS = {
    design='5/C15'),
  'C20': dict(
    text='PARTIAL. The compiled extensions cannot be built here (no Cython). Instead the scalar kernels of the four .pyx sources are translated to Lean '
-        'definitions on every run (harness/gen_pyx.py; 26 scalar kernels and 3 one-dimensional array reductions translated, the nested station / sample loops are listed as not translated) and 17 theorems '
+        'definitions on every run (harness/gen_pyx.py; 26 scalar kernels and 3 one-dimensional array reductions translated, the nested station / sample loops are listed as not translated) and 18 theorems '
         'over the reals state that they equal the models of the pure-Python paths: Gaussian pdf/cdf (both modules), manual-polarity and '
         'polarity-probability station likelihoods, the ratio density for modelled amplitudes of either sign, the inverse-variance step, the '
         'per-station scale estimate, the proposal ratio for full-tensor and double-couple moves (= ratio of the Python transition '
-        'densities), uniform and flat prior ratios, the jump density, lune coordinates, Hudson tau-k and u-v. Tie: regenerated model (the '
+        'densities), uniform and flat prior ratios, the jump density, lune coordinates, Hudson tau-k and u-v, Tape parameters to six-vector. Tie: regenerated model (the '
         'theorems are re-checked against what the .pyx says now) + evaluation of every translated kernel at Float against the real Python '
         'functions (also for cN_SDR/csingleSDR_SDR, the dimension-jump prior ratios and the reductions c_ln_normalise / c_dkl, which have no theorem).',
    note=TB + 'Partial: loops over stations / samples / tensors, log-domain reductions, binning, random generators, memory views, OpenMP and the C compiler are not modelled; the translator is trusted; nothing compiled is executed.',
